@@ -151,9 +151,19 @@ def run_c16(ctx: Ctx) -> None:
         jobs.append({"id": f"saved{base + k}", "label": "saved", "mode": "saved", "src": "gen", "seed": 61000 + base + k, "steps": ctx.pick(30, 50),
                      "world_kwargs": wk, "mix": ["builtin+adv", "adv", "builtin", "adv+builtin"][k % 4] if focus != "energy" else "adv",
                      "every": 5 if focus != "energy" else 3, "later": 8, "throttle": focus == "energy"})
+        if k % 3 == 1:
+            jobs[-1]["dispatcher"] = {"charging_search_type": "shortest_time_to_charge"}     # the other station ranking
+        if focus == "queue":
+            jobs[-1]["mix"] = ["builtin", "builtin+adv"][k % 2]       # the charging manager ranks a full station with a queue
         if focus == "energy":
             # plenty of simultaneous charging on plugs of different (throttled) power
             jobs[-1].update({"kinds": ["ChargeStation", "ChargeStation", "ChargeStation", "Idle", "DispatchStation", "ChargeBase"], "p_instr": 0.5})
+    for k in range(ctx.pick(6, 40)):
+        # every state of a short run retained, in worlds where the charging manager searches for stations right away
+        jobs.append({"id": f"savedt{base + k}", "label": "saved", "mode": "saved", "src": "gen", "seed": 62000 + base + k, "steps": 24,
+                     "world_kwargs": {"focus": "ties"}, "mix": "builtin", "every": 1 if k % 2 == 0 else 2, "later": 8})
+        if k % 3 == 1:
+            jobs[-1]["dispatcher"] = {"charging_search_type": "shortest_time_to_charge"}
     jobs.append({"id": "denver_demo", "label": "saved", "mode": "saved", "src": "shipped", "scenario": str(SCEN_DENVER / "denver_demo.yaml"),
                  "steps": ctx.pick(60, 400), "every": 10, "later": 15})
     groups = [("0", jobs[i::6]) for i in range(6) if jobs[i::6]]
